@@ -235,9 +235,13 @@ def percolate_space(
 
     percolated = Percolation.percolate_subspace(network, space)
     result: BooleanSpace = {}
-    for var, value in percolated.items():
+    # The map returned by AEON has an arbitrary (per-process) order. The order
+    # of a space is visible to everything that iterates it (e.g. the ASP encoding
+    # of avoided spaces, and through the solver the order of the candidates and
+    # the attractor seeds chosen), so make it the order of the network variables.
+    for var in sorted(percolated.keys()):
         var_name = network.get_network_variable_name(var)
-        result[var_name] = cast(Literal[0, 1], int(value))
+        result[var_name] = cast(Literal[0, 1], int(percolated[var]))
     return result
 
 
